@@ -531,6 +531,42 @@ impl<MutexType: RawMutex> GenericSemaphore<MutexType> {
     }
 }
 
+#[cfg(all(futures_intrusive_verif, feature = "alloc"))]
+fn verif_snapshot_state(
+    state: &SemaphoreState,
+    is_live: crate::verif::IsLive<'_>,
+) -> crate::verif::Snapshot {
+    let mut snap = crate::verif::Snapshot::default();
+    snap.scalars.push(("permits", state.permits as u64));
+    snap.scalars.push(("is_fair", state.is_fair as u64));
+    snap.queues.push(crate::verif::snap_list(
+        "waiters",
+        &state.waiters,
+        is_live,
+        &|e: &WaitQueueEntry| {
+            let code = match e.state {
+                PollState::New => 0,
+                PollState::Waiting => 1,
+                PollState::Notified => 2,
+                PollState::Done => 3,
+            };
+            (code, e.task.is_some(), e.required_permits as u64)
+        },
+    ));
+    snap
+}
+
+#[cfg(all(futures_intrusive_verif, feature = "alloc"))]
+impl<MutexType: RawMutex> GenericSemaphore<MutexType> {
+    /// Read-only snapshot of the internal state for the verification harness
+    pub fn verif_snapshot(
+        &self,
+        is_live: crate::verif::IsLive<'_>,
+    ) -> crate::verif::Snapshot {
+        verif_snapshot_state(&self.state.lock(), is_live)
+    }
+}
+
 // Export a non thread-safe version using NoopLock
 
 /// A [`GenericSemaphore`] which is not thread-safe.
@@ -819,6 +855,17 @@ mod if_alloc {
         /// Returns the amount of permits that are available on the semaphore
         pub fn permits(&self) -> usize {
             self.state.lock().permits()
+        }
+    }
+
+    #[cfg(futures_intrusive_verif)]
+    impl<MutexType: RawMutex> GenericSharedSemaphore<MutexType> {
+        /// Read-only snapshot of the internal state for the verification harness
+        pub fn verif_snapshot(
+            &self,
+            is_live: crate::verif::IsLive<'_>,
+        ) -> crate::verif::Snapshot {
+            verif_snapshot_state(&self.state.lock(), is_live)
         }
     }
 
